@@ -40,3 +40,7 @@ h!(h_read_owned, sc_read_owned, 9, 20);
 h!(h_var_u32, sc_var_u32, 4, 42);
 h!(h_var_i32, sc_var_i32, 4, 42);
 h!(h_var_read_any, sc_var_read_any, 6, 20);
+h!(h_char_ser, sc_char_ser, 4, 42);
+h!(h_char_de, sc_char_de, 3, 20);
+h!(h_duration_de, sc_duration_de, 13, 20);
+h!(h_tuple2_bytes, sc_tuple2_bytes, 2, 42);
